@@ -31,8 +31,10 @@ type FakeRegistry struct {
 	// NoReferrersAPI: the registry predates the referrers API (clients fall back to the referrers tag schema).
 	// FailDelete: it also refuses to delete manifests (a client cannot remove the index it has just replaced).
 	NoReferrersAPI, FailDelete bool
-	srv                        *httptest.Server
-	tr                         *http.Transport
+	// FailReferrersFromPage: the n-th and every later page of a referrers listing answers 500 (0: never)
+	FailReferrersFromPage int
+	srv                   *httptest.Server
+	tr                    *http.Transport
 }
 
 type fakeManifest struct {
@@ -217,6 +219,10 @@ func (f *FakeRegistry) ServeHTTP(w http.ResponseWriter, r *http.Request) {
 		}
 		if start > len(refs) {
 			start = len(refs)
+		}
+		if f.FailReferrersFromPage > 0 && f.PageSize > 0 && start/f.PageSize+1 >= f.FailReferrersFromPage {
+			http.Error(w, `{"errors":[{"code":"UNKNOWN","message":"scripted failure of a later referrers page"}]}`, http.StatusInternalServerError)
+			return
 		}
 		end := len(refs)
 		if f.PageSize > 0 && start+f.PageSize < end {
